@@ -79,6 +79,7 @@ from .element import (
     Doctype,
     NavigableString,
     PageElement,
+    PreformattedString,
     ProcessingInstruction,
     PYTHON_SPECIFIC_ENCODINGS,
     ResultSet,
@@ -845,8 +846,13 @@ class BeautifulSoup(Tag):
             current_data = "".join(self.current_data)
             # If whitespace is not preserved, and this string contains
             # nothing but ASCII spaces, replace it with a single space
-            # or newline.
-            if not self.preserve_whitespace_tag_stack:
+            # or newline. This only applies to text: the content of a
+            # comment, CDATA section, doctype, declaration or
+            # processing instruction is kept as it is.
+            if not self.preserve_whitespace_tag_stack and not (
+                containerClass is not None
+                and issubclass(containerClass, PreformattedString)
+            ):
                 strippable = True
                 for i in current_data:
                     if i not in self.ASCII_SPACES:
